@@ -225,3 +225,34 @@ pub fn crc32_frame(frame_type: u8, payload: &[u8]) -> u32 {
     hasher.update(payload);
     hasher.finalize()
 }
+
+
+/// Four bytes `x` such that crc32(prefix ++ x) == target (CRC-32/ISO-HDLC, the one crc32fast computes).
+/// Used to craft payloads whose frame header carries a chosen checksum value (content-dependent behaviour).
+pub fn forge_crc_suffix(prefix: &[u8], target: u32) -> Option<[u8; 4]> {
+    let mut table = [0u32; 256];
+    for (idx, slot) in table.iter_mut().enumerate() {
+        let mut value = idx as u32;
+        for _ in 0..8 {
+            value = if value & 1 == 1 { 0xEDB8_8320 ^ (value >> 1) } else { value >> 1 };
+        }
+        *slot = value;
+    }
+    let mut hasher = crc32fast::Hasher::default();
+    hasher.update(prefix);
+    let current = hasher.finalize() ^ 0xFFFF_FFFF;
+    let mut reg = target ^ 0xFFFF_FFFF;
+    for _ in 0..4 {
+        let idx = (0..256usize).find(|idx| table[*idx] >> 24 == reg >> 24)?;
+        reg = ((reg ^ table[idx]) << 8) | idx as u32;
+    }
+    let suffix = (reg ^ current).to_le_bytes();
+    let mut check = crc32fast::Hasher::default();
+    check.update(prefix);
+    check.update(&suffix);
+    if check.finalize() == target {
+        Some(suffix)
+    } else {
+        None
+    }
+}
